@@ -1,8 +1,12 @@
 #!/bin/bash
-# applies every behaviour-preserving refactoring of seeded/benign to a scratch copy and requires all 20 checks to stay silent
+# applies every behaviour-preserving refactoring of seeded/benign to a scratch copy and requires all 20 checks to stay
+# silent (PAT=glob selects patches, PAR jobs in parallel, default 4)
 cd /verif
-ALL="C01 C02 C03 C04 C05 C06 C07 C08 C09 C10 C11 C12 C13 C14 C15 C16 C17 C18 C19 C20"
-for b in ${PAT:-seeded/benign/*.diff}; do
+one() {
+  b=$1
+  ALL="C01 C02 C03 C04 C05 C06 C07 C08 C09 C10 C11 C12 C13 C14 C15 C16 C17 C18 C19 C20"
   out=$(tools/mutant.sh "$b" $ALL 2>&1)
   if echo "$out" | grep -q "CAUGHT"; then echo "FALSE-ALARM $(basename $b): $(echo "$out" | grep -A2 CAUGHT | grep -E '^  C' | head -4 | cut -c1-260 | tr '\n' '|')"; elif echo "$out" | grep -q -E "PATCH-FAILED|BUILD-FAILED"; then echo "INVALID $(basename $b): $(echo "$out" | head -2 | tr '\n' ' ')"; else echo "ok   $(basename $b)"; fi
-done
+}
+export -f one
+ls ${PAT:-seeded/benign/*.diff} | xargs -P ${PAR:-4} -I{} bash -c 'one {}' | sort -k2
